@@ -133,7 +133,7 @@ impl Bmi2BitOps {
     /// for 5-10x select speedup on BMI2-capable CPUs.
     #[cfg(target_arch = "x86_64")]
     pub fn select1_ultra_fast(word: u64, rank: usize) -> Option<usize> {
-        if rank == 0 || word == 0 {
+        if rank == 0 || rank > word.count_ones() as usize {
             return None;
         }
         
